@@ -104,10 +104,11 @@ def _is_candidate(qn: str, fn, cls: str | None, outer, module: str, known: set) 
     if fn.name.startswith('__') and fn.name.endswith('__'):
         return False
     decos = [ast.unparse(d) for d in fn.decorator_list]
-    if any(d not in ('staticmethod', 'classmethod') for d in decos):
+    is_cm = any(d.split('.')[-1] in ('contextmanager', 'asynccontextmanager') for d in decos)
+    if any(d not in ('staticmethod', 'classmethod') and d.split('.')[-1] not in ('contextmanager', 'asynccontextmanager') for d in decos):
         return False
     for n in _own_walk(fn):
-        if isinstance(n, (ast.Yield, ast.YieldFrom)):
+        if isinstance(n, ast.YieldFrom) or (isinstance(n, ast.Yield) and not is_cm):
             return False
         if isinstance(n, ast.Call) and ((isinstance(n.func, ast.Name) and n.func.id == fn.name) or (isinstance(n.func, ast.Attribute) and n.func.attr == fn.name)):
             return False  # recursive
@@ -287,7 +288,10 @@ def fold_new_helpers(tree: ast.Module, module: str, known: set[tuple[str, str]] 
                 continue
             body = _body_wo_doc(fn)
             try:
-                if len(body) == 1 and isinstance(body[0], ast.Return) and body[0].value is not None and not isinstance(fn, ast.AsyncFunctionDef):
+                if any(ast.unparse(d).split('.')[-1] in ('contextmanager', 'asynccontextmanager') for d in fn.decorator_list):
+                    _fold_context_manager(fn, body, refs, parents, is_method, static)
+                    how = 'context-manager'
+                elif len(body) == 1 and isinstance(body[0], ast.Return) and body[0].value is not None and not isinstance(fn, ast.AsyncFunctionDef):
                     _fold_expression_function(fn, body[0].value, refs, parents, is_method, static)
                     how = 'expression'
                 else:
@@ -397,6 +401,77 @@ def _fold_statement_function(fn, body: list[ast.stmt], refs: list[ast.AST], pare
                 spliced = [ast.copy_location(ast.Assign(targets=[copy.deepcopy(target)], value=ast.Constant(value=None)), stmt)] + spliced
         i = next(k for k, x in enumerate(blk) if x is stmt)
         blk[i:i + 1] = spliced or [ast.copy_location(ast.Pass(), stmt)]
+
+
+def _fold_context_manager(fn, body: list[ast.stmt], refs: list[ast.AST], parents, is_method: bool, static: bool) -> None:
+    """`with helper(args) [as v]: BODY` for a generator-based context manager with a single top-level `yield`:
+        pre; yield; post                       ->  pre; BODY; post                 (post only runs on normal completion: exactly the generator semantics)
+        pre; try: a; yield; b  [except..] finally: f   ->  pre; try: a; BODY; b [except..] finally: f
+    """
+    yields = [n for n in _own_walk(fn) if isinstance(n, ast.Yield)]
+    if len(yields) != 1:
+        raise NotInlinable('context manager without exactly one yield')
+
+    def find(stmts):
+        for i, st in enumerate(stmts):
+            if isinstance(st, ast.Expr) and st.value is yields[0]:
+                return i, None
+            if isinstance(st, ast.Try):
+                for j, s2 in enumerate(st.body):
+                    if isinstance(s2, ast.Expr) and s2.value is yields[0]:
+                        return i, j
+        return None
+
+    loc = find(body)
+    if loc is None:
+        raise NotInlinable('yield is not a top-level statement (or directly inside a top-level try)')
+    is_async = isinstance(fn, ast.AsyncFunctionDef)
+    sites = []
+    for r in refs:
+        p = parents.get(id(r))
+        if not (isinstance(p, ast.Call) and p.func is r):
+            raise NotInlinable('context manager referenced without being called')
+        item = parents.get(id(p))
+        w = parents.get(id(item)) if isinstance(item, ast.withitem) else None
+        if not isinstance(w, (ast.With, ast.AsyncWith)) or len(w.items) != 1 or isinstance(w, ast.AsyncWith) != is_async:
+            raise NotInlinable('context manager not used as the single item of a with statement')
+        blk = _containing_block(w, parents)
+        if blk is None:
+            raise NotInlinable('with statement not in a plain block')
+        sites.append((p, item, w, blk))
+    for call, item, w, blk in sites:
+        mapping, prelude = _bind(fn, call, is_method, static)
+        new_body = [_Subst(mapping, {}).visit(copy.deepcopy(s)) for s in body]
+        i, j = find_in_copy(new_body)
+        bind = []
+        if item.optional_vars is not None:
+            yv = yield_value(new_body, i, j)
+            bind = [ast.copy_location(ast.Assign(targets=[copy.deepcopy(item.optional_vars)], value=yv if yv is not None else ast.Constant(value=None)), w)]
+        inner = bind + list(w.body)
+        if j is None:
+            spliced = prelude + new_body[:i] + inner + new_body[i + 1:]
+        else:
+            tr = new_body[i]
+            tr.body = tr.body[:j] + inner + tr.body[j + 1:]
+            spliced = prelude + new_body
+        k = next(x for x, st in enumerate(blk) if st is w)
+        blk[k:k + 1] = spliced
+
+
+def find_in_copy(stmts):
+    for i, st in enumerate(stmts):
+        if isinstance(st, ast.Expr) and isinstance(st.value, ast.Yield):
+            return i, None
+        if isinstance(st, ast.Try):
+            for j, s2 in enumerate(st.body):
+                if isinstance(s2, ast.Expr) and isinstance(s2.value, ast.Yield):
+                    return i, j
+    raise NotInlinable('yield lost')
+
+
+def yield_value(stmts, i, j):
+    y = stmts[i].value if j is None else stmts[i].body[j].value
+    return y.value
 
 
 def _always_returns(stmts: list[ast.stmt]) -> bool:
